@@ -411,8 +411,15 @@ class ShapeDomain(Domain):
                 return self.refine(test.operand, True, eng, fr, _depth)
             return out
         if isinstance(test, ast.BoolOp) and isinstance(test.op, ast.And):
-            for v in test.values:
-                out.update(self.refine(v, True, eng, fr, _depth))
+            saved = fr.env
+            fr.env = dict(saved)
+            try:
+                for v in test.values:
+                    got = self.refine(v, True, eng, fr, _depth)
+                    out.update(got)
+                    fr.env.update(got)  # a later conjunct is evaluated knowing the earlier ones hold
+            finally:
+                fr.env = saved
             return out
         if isinstance(test, ast.Call) and isinstance(test.func, ast.Attribute) and test.func.attr in ("isrequestsecure",):
             recv = test.func.value
@@ -431,8 +438,8 @@ class ShapeDomain(Domain):
                         and self.prog.is_subclass(t.cls, self.handler_base) and t.cls not in self.relaxed:
                     sec = self.prog.resolve_method(t.cls, "isrequestsecure")
                     if sec is not None and sec.cls is self.handler_base:
-                        out[dotted(ctor.args[0])] = V(("sel",))
-        elif isinstance(test, ast.Call) and not _depth:
+                        out[dotted(ctor.args[0])] = self._accepted(dotted(ctor.args[0]), fr, out)
+        elif isinstance(test, ast.Call) and not _depth and _slash_tested(test) is None:
             # a helper that applies the filter to one of its parameters: self._isrequestable(N), selectorissecure(N)
             t = eng.resolver.resolve(test, fr.func, fr.concrete)
             if t.kind == "repo" and len(t.funcs) == 1 and t.funcs[0] is not None and not t.by_name:
@@ -443,8 +450,47 @@ class ShapeDomain(Domain):
                         i = params.index(p_)
                         a = test.args[i] if i < len(test.args) else next((k.value for k in test.keywords if k.arg == p_), None)
                         if isinstance(a, ast.Name):
-                            out[a.id] = V(("sel",))
+                            out[a.id] = self._accepted(a.id, fr, out)
+        nm = _slash_tested(test)
+        if nm is not None:
+            if True:
+                cur = out.get(nm, fr.env.get(nm))
+                if cur is not None:
+                    new = set()
+                    for alt in cur:
+                        if alt and alt[0][0] == "fac":
+                            new.add((("sel",),) + tuple(alt[1:]))
+                        elif alt and alt[0][0] in ("content", "raw", "req", "top", "name", "param"):
+                            new.add((("c", "/"),) + tuple(alt))
+                        else:
+                            new.add(alt)
+                    out[nm] = frozenset(new)
         return out
+
+    @staticmethod
+    def _slash_initial(val) -> bool:
+        if not val:
+            return False
+        for alt in val:
+            pieces = [p for p in alt if not (p[0] == "c" and p[1] == "")]
+            if not pieces:
+                return False
+            f = pieces[0]
+            if not (f[0] == "sel" or (f[0] == "c" and str(f[1]).startswith("/"))):
+                return False
+        return True
+
+    def _accepted(self, name, fr, pending):
+        """Shape of a name that has passed the selector filter: an accepted selector when it is known to start with '/',
+        otherwise accepted text only (the file-system view joins root and selector as text: `<root>` + `x` is a neighbour of the root).
+        Request selectors and anything of unknown history keep the old reading (they were normalised by the protocol)."""
+        cur = pending.get(name, fr.env.get(name) if fr is not None and fr.env else None)
+        if cur is None:
+            return V(("sel",))
+        contentish = any(p[0] == "content" for alt in cur for p in alt)
+        if contentish and not self._slash_initial(cur):
+            return V(("fac",))
+        return V(("sel",))
 
     def _filtered_params(self, callee, eng):
         """Parameters of `callee` that have passed the selector filter whenever it returns something true."""
@@ -578,6 +624,22 @@ def instantiate(piece, filt, cfgvals: Dict[str, List[str]], first: bool):
         return cfgvals.get(piece[1])
     if k in ("root", "param"):
         return ["/ROOT"] if k == "root" else None
+    return None
+
+
+def _slash_tested(test):
+    """N for `N.startswith("/")`, `N[0:1] == "/"`, `N[:1] == "/"`, `N[0] == "/"` (N a plain name); None otherwise."""
+    if isinstance(test, ast.Call) and isinstance(test.func, ast.Attribute) and test.func.attr == "startswith" and isinstance(test.func.value, ast.Name) \
+            and len(test.args) == 1 and isinstance(test.args[0], ast.Constant) and isinstance(test.args[0].value, str) and test.args[0].value.startswith("/"):
+        return test.func.value.id
+    if isinstance(test, ast.Compare) and len(test.ops) == 1 and isinstance(test.ops[0], ast.Eq) and isinstance(test.comparators[0], ast.Constant) \
+            and test.comparators[0].value == "/" and isinstance(test.left, ast.Subscript) and isinstance(test.left.value, ast.Name):
+        sl = test.left.slice
+        if isinstance(sl, ast.Constant) and sl.value == 0:
+            return test.left.value.id
+        if isinstance(sl, ast.Slice) and (sl.lower is None or (isinstance(sl.lower, ast.Constant) and sl.lower.value == 0)) \
+                and isinstance(sl.upper, ast.Constant) and sl.upper.value == 1 and sl.step is None:
+            return test.left.value.id
     return None
 
 
